@@ -323,8 +323,22 @@ func runC15(c *sim.Ctx) *sim.Violation {
 		for _, id := range ids {
 			pb.AddSubscriptionID(id)
 		}
-		if b, err, pi := encodeReal(pb); err == nil && pi == nil && !bytes.Equal(b, frame) {
-			return sim.V("C15/public-api/subscription-identifiers-in-publish/encoding", "PUBLISH with subscription identifiers %v encodes as %x, the specification gives %x", ids, b, frame)
+		if b, err, pi := encodeReal(pb); err == nil && pi == nil {
+			// the frame must read back, strictly (every variable byte integer in its
+			// minimal form), to the same identifiers; how the encoder orders or pads the
+			// rest of the property section is not C15's matter
+			d, derr := ref.Decode(b, false)
+			var back []uint32
+			if derr == nil {
+				for _, pr := range d.Props {
+					if pr.ID == 0x0B {
+						back = append(back, pr.N)
+					}
+				}
+			}
+			if derr != nil || fmt.Sprint(back) != fmt.Sprint(ids) {
+				return sim.V("C15/public-api/subscription-identifiers-in-publish/encoding", "PUBLISH with subscription identifiers %v encodes as %x; a strict reading gives %v (%v)", ids, b, back, derr)
+			}
 		}
 	}
 	// a property length that needs the four-byte form (>= 2 097 152): a packet whose
@@ -349,8 +363,14 @@ func runC15(c *sim.Ctx) *sim.Violation {
 		if name, wv, gv := ref.FirstDiff(a.Canon(), o.Canon); name != "" {
 			return sim.V("C15/public-api/four-byte-property-length/"+name, "accessor %s: want %q got %q", name, wv, gv)
 		}
-		if b, err, pi := encodeReal(o.P); err != nil || pi != nil || !bytes.Equal(b, frame) {
-			return sim.V("C15/public-api/four-byte-property-length/re-encode", "re-encoding a packet with a four-byte property length: err=%v panic=%v, %d bytes vs %d", err, pi, len(b), len(frame))
+		b, err, pi := encodeReal(o.P)
+		if err != nil || pi != nil {
+			return sim.V("C15/public-api/four-byte-property-length/re-encode", "re-encoding a packet with a four-byte property length: err=%v panic=%v", err, pi)
+		}
+		if d, derr := ref.Decode(b, false); derr != nil {
+			return sim.V("C15/public-api/four-byte-property-length/re-encode", "the re-encoded frame (%d bytes) does not read back strictly: %v", len(b), derr)
+		} else if name, wv, gv := ref.FirstDiff(a.Canon(), d.Canon()); name != "" {
+			return sim.V("C15/public-api/four-byte-property-length/re-encode/"+name, "re-encoded frame: %s want %q got %q", name, wv, gv)
 		}
 		c.Count("probe.four-byte-property-length")
 	}
